@@ -629,7 +629,7 @@ func buildField(ww *conversionVisitor, node sourcewalk.FieldNode) (*descriptorpb
 			proto.SetExtension(desc.Options, ext_j5pb.E_Key, entityExt)
 		}
 
-		ww.setJ5Ext(node.Source, desc.Options, "key", st.Key.Ext)
+		keyExt := ww.setJ5Ext(node.Source, desc.Options, "key", st.Key.Ext)
 
 		if st.Key.ListRules != nil {
 			var fkt list_j5pb.IsForeignKeyRules_Type
@@ -685,6 +685,11 @@ func buildField(ww *conversionVisitor, node sourcewalk.FieldNode) (*descriptorpb
 
 			case *schema_j5pb.KeyFormat_Custom_:
 				stringRules.Pattern = &ff.Custom.Pattern
+				if keyOpts := keyExt.GetKey(); keyOpts != nil {
+					keyOpts.Type = &ext_j5pb.KeyField_Pattern{
+						Pattern: ff.Custom.Pattern,
+					}
+				}
 
 			case *schema_j5pb.KeyFormat_Informal_:
 
